@@ -176,7 +176,7 @@ Definition nth_len (h : header) (op : N) : option N :=
 Fixpoint no_nul (bs : list byte) : bool :=
   match bs with [] => true | b :: r => negb (b2n b =? 0)%N && no_nul r end.
 
-(* args is exactly k terminated LEB128 numbers, each at most 10 bytes with a final byte fitting u64 *)
+(* args is exactly k canonical (minimal) unsigned LEB128 numbers below 2^64 *)
 Fixpoint lebs_ok (fuel : nat) (k : N) (args : list byte) : bool :=
   match fuel with
   | O => false
@@ -184,7 +184,7 @@ Fixpoint lebs_ok (fuel : nat) (k : N) (args : list byte) : bool :=
       if (k =? 0)%N then (match args with [] => true | _ => false end)
       else match split_leb args with
            | Some (e, rest) =>
-               (Nat.leb (length e) 10) && (uval e <? 18446744073709551616)%N && lebs_ok f (k - 1)%N rest
+               bytes_eqb (enc_uleb (uval e)) e && (uval e <? 18446744073709551616)%N && lebs_ok f (k - 1)%N rest
            | None => false
            end
   end.
@@ -222,13 +222,13 @@ Definition insn_wf (h : header) (i : insn) : bool :=
       (h_version h <=? 4)%N &&
       match fe_path f, fe_source f with
       | VString p, None => no_nul p && u64b (fe_dir f) && u64b (fe_time f) && u64b (fe_size f) &&
-                           bytes_eqb (fe_md5 f) (repeat x00 16)
+                           bytes_eqb (fe_md5 f) (repeat x00 16) && u64b (N.of_nat (length p) + 64)
       | _, _ => false
       end
   | ISetDiscriminator n => u64b n
   | IUnkExt op bs =>
       (op <? 256)%N && negb (op =? 1)%N && negb (op =? 2)%N && negb (op =? 4)%N &&
-      ((5 <=? h_version h)%N || negb (op =? 3)%N)
+      ((5 <=? h_version h)%N || negb (op =? 3)%N) && u64b (N.of_nat (length bs) + 1)
   end.
 
 (* registers stay representable after this instruction *)
